@@ -156,6 +156,21 @@ pub fn gen_offset(rng: &mut crate::core::Rng) -> i32 {
     }
 }
 
+/// Like gen_offset, but one case in ten carries an `Offset::Fixed` of a day or more (up to the i32 extremes). The
+/// variant is public, `set_offset` accepts it, and statements that do not speak about the offset at all (ordering,
+/// differences, arithmetic, month shifts, weekday of the value's own day) quantify over such values too.
+pub fn gen_offset_any(rng: &mut crate::core::Rng) -> i32 {
+    if rng.chance(1, 10) {
+        match rng.below(3) {
+            0 => *rng.pick(&[86_400i32, -86_400, 86_401, -86_401, 172_800, -172_800, 200_000, -200_000, 1_000_000, -1_000_000]),
+            1 => rng.range_i64(-40_000_000, 40_000_000) as i32,
+            _ => *rng.pick(&[i32::MAX, i32::MIN, i32::MIN + 1, 1 << 30, -(1 << 30)]),
+        }
+    } else {
+        gen_offset(rng)
+    }
+}
+
 // ------------------------------------------------------------------------------------------------
 // Differential observation (keeps one property's verdict independent of defects in the read-out or
 // construction routes that other properties own): a result is never compared with the model
